@@ -7,8 +7,14 @@ package store
 // C01: the topic row is advanced before the message row is written, so that at every adapter-call boundary (the
 // points where a crash can separate the writes of one publish) no stored message has a number above the topic's
 // stored high-water mark; a save that fails leaves no row.
+// (C16: every attachment URL of a saved message is looked up so that it can be linked to the message - whatever the
+// read-by-sender flag; idLookups counts the look-ups)
 //@ func (m messagesMapper) Save(msg *types.Message, attachmentURLs []string, readBySender bool) (err error, marked bool)
 //@   requires [C01] msg != nil && rowMax[msg.Topic] <= hwm[msg.Topic]
+//@   ensures [C16] attachments_examined: err == nil && len(attachmentURLs) > 0 ==> idLookups > old(idLookups)
+//@   assert at call FileLinkAttachments [C16] linked_to_message_only: $1 == "" && $2 == types.ZeroUid
+//@   loop 1
+//@     invariant [C16] one_lookup_per_url: idLookups >= old(idLookups) + #idx
 //@   ensures [C01] recovery:      rowMax[old(msg.Topic)] <= hwm[old(msg.Topic)]
 //@   ensures [C01] saved:         err == nil ==> rowMax[old(msg.Topic)] >= old(msg.SeqId) && hwm[old(msg.Topic)] >= old(msg.SeqId)
 //@   ensures [C01] failed_no_row: err != nil ==> rowMax[old(msg.Topic)] == old(rowMax[msg.Topic])
